@@ -267,6 +267,13 @@ std::string render_int(long long v, bool neg_allowed, int radix, bool caps, int 
 	return out;
 }
 
+// every argument is a temporary of the helper's frame (computed, so that it cannot be folded into a constant)
+__attribute__((noinline)) auto make_stored_fmt(frg::string_view f, const FmtArgs &a) {
+	volatile int zero = 0;
+	return frg::fmt(f, a.i + zero, a.u + (unsigned)zero, a.l + (long)zero, a.ull + (unsigned long long)zero, (char)(a.ch + (char)zero), (const char *)(a.cs + zero), frg::string_view(a.sv.data(), a.sv.size()));
+}
+__attribute__((noinline)) void scribble_stack() { volatile unsigned char buf[1024]; for(size_t i = 0; i < sizeof buf; i++) buf[i] = 0xA5; }
+
 void run_fmt(Ctx &c) {
 	auto &t = c.t;
 	FmtArgs a;
@@ -341,6 +348,17 @@ void run_fmt(Ctx &c) {
 	frg::format(frg::fmt(frg::string_view(f, fmt.size()), a.i, a.u, a.l, a.ull, a.ch, a.cs, sv), sink);
 	c.check_san("C19");
 	VCHECK(c, "C19", sink.out == expect, "fmt(\"%s\") renders \"%s\", the documented grammar gives \"%s\"", fmt.c_str(), sink.out.c_str(), expect.c_str());
+	// A message object that is built from temporaries in one place and rendered later (stored, returned from a function):
+	// it has to hold its rvalue arguments by value.
+	{
+		auto msg = make_stored_fmt(frg::string_view(f, fmt.size()), a);
+		scribble_stack();
+		StrSink later;
+		frg::format(msg, later);
+		c.check_san("C19");
+		VCHECK(c, "C19", later.out == expect, "fmt(\"%s\") built from temporaries and rendered after the building expression ended renders \"%s\", expected \"%s\" (the object must own its rvalue arguments)", fmt.c_str(), later.out.c_str(), expect.c_str());
+		c.tag("fmt-stored-object");
+	}
 	c.nontrivial = nt;
 	c.tag("fmt");
 }
